@@ -156,6 +156,13 @@ def loader_family(tier, seed):
             return DefaultFactory(custom_factory)
         if kind == "DFI":
             return DefaultFactory(immutable_factory)
+        if kind == "DVM":
+            # a mutable default VALUE with nested mutable containers, literal leaves only (plain class / NamedTuple / attrs):
+            # every level has to be rebuilt on each load
+            o = [[0, 0], {"k": []}]
+            _KEEP.append(o)
+            tag(o, f"default:{fid}")
+            return DefaultValue(o)
         if kind == "DVE":
             # two defaults that compare equal but are different objects of different types (capture stage must keep both)
             from decimal import Decimal
@@ -228,6 +235,7 @@ def loader_family(tier, seed):
         "r_dfi": [("a", "R", "K", "a"), ("b", "DFI", "K", "b")],
         "r_dve": [("a", "R", "K", "a"), ("b", "DVE", "K", "b"), ("cb2", "DVE", "K", "cb2"), ("c", "DVE", "K", "c")],
         "r_o_dv": [("a", "R", "K", "a"), ("b", "O", "K", "b"), ("c", "DV", "K", "c")],   # packed field before a positional one
+        "r_dvm": [("a", "R", "K", "a"), ("b", "DVM", "K", "b")],
         "dv_only": [("a", "DV", "K", "a")],     # with crown skip_opt: a model whose only field is skipped (empty root crown)
     }
     # crowns for 1..3 fields named a,b,c(,d)
@@ -278,7 +286,7 @@ def loader_family(tier, seed):
             if quick:
                 # keep the quick family small but covering: every crown kind; policies and modes on a subset
                 if sname not in ("r2", "r_dv", "r_dvn", "r_o", "p_k_dv_w", "r_dvo", "r_dfo", "renamed", "r_dv_dv", "dv_only", "r_dfi",
-                                 "r_dve", "r_o_dv"):
+                                 "r_dve", "r_o_dv", "r_dvm"):
                     continue
                 if sname == "dv_only":
                     if cname != "skip_opt":
